@@ -13,7 +13,6 @@ var c27Exceptions = map[string]string{
 	"(*internal/types.Checker).initOrder: range n.pred #2": "go/types initialisation order: decrements the dependency count of every predecessor and fixes the priority queue; the queue orders by (ndeps, source order), so the popped sequence is independent of the visiting order",
 	"(*internal/types.Checker).lookupMethodFunc: range check.objMap #1": "search for the method of a given receiver type and name: at most one object matches (duplicate methods are rejected by the checker), so the first match is the only match",
 	"(*internal/types.Checker).processGlobalEmbed: range check.objMap #1": "per-constant effect: each #wa:embed constant gets its own initialiser; early returns are error paths",
-	"(*internal/types.Checker).processGlobalEmbed: range f.EmbedMap #1": "lookup of one key in a map by iteration (k == name): at most one entry matches",
 	"(*internal/types.Checker).recordUntyped: range check.untyped #1": "records type and value of each untyped expression under its own key (distinct keys); the debug branch is constant false",
 	"internal/ssa.removeDeadPhis: range newPhis #1": "x/tools ssa: marks live phis (set union: order-insensitive fixpoint)",
 	"internal/ssa.removeDeadPhis: range newPhis #2": "x/tools ssa: removes each dead phi from its own block and nils its slot; per-element effect",
